@@ -51,6 +51,38 @@ fn has_raw_fd(_stream: &dyn crate::context::IOStream) -> bool {
     false
 }
 
+/// The TCP socket under a client or server stream (plain or TLS), if it is one.
+#[cfg(target_os = "linux")]
+fn socket_fd(stream: &dyn crate::context::IOStream) -> Option<i32> {
+    use std::os::unix::prelude::AsRawFd;
+    use tokio::net::TcpStream;
+    let any = stream.as_any();
+    if let Some(s) = any.downcast_ref::<TcpStream>() {
+        Some(s.as_raw_fd())
+    } else if let Some(s) = any.downcast_ref::<tokio_rustls::server::TlsStream<TcpStream>>() {
+        Some(s.get_ref().0.as_raw_fd())
+    } else {
+        any.downcast_ref::<tokio_rustls::client::TlsStream<TcpStream>>()
+            .map(|s| s.get_ref().0.as_raw_fd())
+    }
+}
+/// Bytes the proxy has handed to the kernel for this socket that the peer has not acknowledged yet.
+#[cfg(target_os = "linux")]
+fn unsent(fd: Option<i32>) -> Option<i32> {
+    let mut n: libc::c_int = 0;
+    // SAFETY: the descriptor belongs to a stream that lives until copy_bidi returns; TIOCOUTQ writes one int
+    let r = unsafe { libc::ioctl(fd?, libc::TIOCOUTQ, &mut n) };
+    (r == 0).then_some(n)
+}
+#[cfg(not(target_os = "linux"))]
+fn socket_fd(_stream: &dyn crate::context::IOStream) -> Option<i32> {
+    None
+}
+#[cfg(not(target_os = "linux"))]
+fn unsent(_fd: Option<i32>) -> Option<i32> {
+    None
+}
+
 struct SrcHalf<T> {
     name: &'static str,
     stream: Option<ReadHalf<T>>,
@@ -263,6 +295,7 @@ pub async fn copy_bidi(ctx: ContextRef, params: &IoParams) -> Result<(), Error> 
     let server_label = ctx_lock.props().connector.as_ref().unwrap().clone();
     drop(ctx_lock);
 
+    let (mut client_fd, mut server_fd) = (None, None);
     let mut csrc = SrcHalf::new("client");
     let mut ssrc = SrcHalf::new("server");
     let mut cdst = DstHalf::new("client");
@@ -286,6 +319,8 @@ pub async fn copy_bidi(ctx: ContextRef, params: &IoParams) -> Result<(), Error> 
         // Get the naked streams without buffers.
         let client = client.into_inner().into_inner();
         let server = server.into_inner().into_inner();
+        client_fd = socket_fd(&*client);
+        server_fd = socket_fd(&*server);
 
         if has_raw_fd(&*client) && has_raw_fd(&*server) && params.use_splice {
             #[cfg(target_os = "linux")]
@@ -342,6 +377,7 @@ pub async fn copy_bidi(ctx: ContextRef, params: &IoParams) -> Result<(), Error> 
 
     let mut c2s = None;
     let mut s2c = None;
+    let (mut client_queue, mut server_queue) = (None, None);
 
     while c2s.is_none() || s2c.is_none() {
         tokio::select! {
@@ -354,8 +390,23 @@ pub async fn copy_bidi(ctx: ContextRef, params: &IoParams) -> Result<(), Error> 
                 s2c = Some(ret?);
                 ctx.write().await.set_state(ContextState::ServerShutdown);
             },
-            _ = interval.tick() => if server_stat.is_timeout(idle_timeout) && client_stat.is_timeout(idle_timeout){
-                return Err(err_msg("idle timeout"))
+            _ = interval.tick() => {
+                // What the proxy has written may still be on its way: a receiver that drains slowly takes the
+                // kernel's send queue down for a long time while the relay is blocked on it and counts nothing.
+                // A queue that shrank since the last tick is data the tunnel carried in that second (it was
+                // closed as idle before, in the middle of a transfer). A queue that stands still is a stalled
+                // receiver: that is idle.
+                let (cq, sq) = (unsent(client_fd), unsent(server_fd));
+                if matches!((cq, client_queue), (Some(now), Some(before)) if now < before) {
+                    server_stat.touch();
+                }
+                if matches!((sq, server_queue), (Some(now), Some(before)) if now < before) {
+                    client_stat.touch();
+                }
+                (client_queue, server_queue) = (cq, sq);
+                if server_stat.is_timeout(idle_timeout) && client_stat.is_timeout(idle_timeout) {
+                    return Err(err_msg("idle timeout"))
+                }
             }
         }
     }
